@@ -52,6 +52,11 @@ Inductive cres :=
 (** a pending child visit of Query: node, its prefix, the remaining query *)
 Definition qitem := (nat * path * path)%type.
 
+(** what a thread does once it has released everything it holds *)
+Inductive ucont :=
+| UDone (r : cres)              (* return r *)
+| UVal (n : nat).               (* Get returned node n: call Value() on it *)
+
 Inductive pc :=
 | PStart (o : cop)
 | PDone (r : cres)
@@ -68,7 +73,7 @@ Inductive pc :=
 | PGetEnter (t : nat) (p : path)
 | PGetRead (t : nat) (p : path)
 (* release everything held (deferred unlocks), then continue *)
-| PUnwind (k : pc)
+| PUnwind (k : ucont)
 (* Leaf.Value / Tree.Value on a handle *)
 | PHVal (n : nat)
 | PHValRead (n : nat)
@@ -76,6 +81,7 @@ Inductive pc :=
 | PHUpd (n : nat) (v : Z)
 | PHUpdAcq (n : nat) (v : Z)
 | PHUpdWrite (n : nat) (v : Z)
+| PHRel (r : cres)               (* release the handle's lock, then return r *)
 (* Delete *)
 | PDel (q : path)
 | PDelAcq (q : path)
@@ -86,19 +92,19 @@ Inductive pc :=
 | PQVisit (pre : path) (v : Z) (acc : list (path * Z)) (fr : list (list qitem))
 | PQNext (acc : list (path * Z)) (fr : list (list qitem)).
 
-Record thread := TH { tpc : pc; held : list (nat * lmode) }.
+(** [top]: the API call this thread executes (never changes) *)
+Record thread := TH { top : cop; tpc : pc; held : list (nat * lmode) }.
 
 Record state := ST { hp : heap; thr : list thread }.
 
 (** ** heap primitives *)
 
-Definition upd_node (h : heap) (n : nat) (f : hnode -> hnode) : heap :=
-  (fix go (h : heap) (n : nat) : heap :=
-     match h, n with
-     | [], _ => []
-     | x :: h', O => f x :: h'
-     | x :: h', S n' => x :: go h' n'
-     end) h n.
+Fixpoint upd_node (h : heap) (n : nat) (f : hnode -> hnode) : heap :=
+  match h, n with
+  | [], _ => []
+  | x :: h', O => f x :: h'
+  | x :: h', S n' => x :: upd_node h' n' f
+  end.
 
 Definition set_cont (h : heap) (n : nat) (c : content) : heap :=
   upd_node h n (fun x => HN c (rd x) (wr x) (pw x)).
@@ -222,6 +228,7 @@ Definition lockop_of (t : thread) : lockop :=
   | PHUpd n _ => LReq n
   | PHUpdAcq n _ => LAcq n
   | PHUpdWrite _ _ => LNone
+  | PHRel _ => LRel
   | PDel _ => LReq 0%nat
   | PDelAcq _ => LAcq 0%nat
   | PDelCrit _ => LNone
@@ -246,6 +253,7 @@ Definition after_lock (p : pc) : pc :=
   | PHVal n => PHValRead n
   | PHUpd n v => PHUpdAcq n v
   | PHUpdAcq n v => PHUpdWrite n v
+  | PHRel r => PDone r
   | PDel q => PDelAcq q
   | PDelAcq q => PDelCrit q
   | PQEnter t0 pre q acc fr => PQRead t0 pre q acc fr
@@ -308,8 +316,8 @@ Definition local_step (h : heap) (p : pc) : heap * pc :=
   | PDone r => (h, PDone r)
   | PAddTCrit t0 v =>
       match get_cont h t0 with
-      | CBranch _ => (h, PUnwind (PDone (XAdd false)))      (* leaf in place of a branch *)
-      | _ => (set_cont h t0 (CLeaf v), PUnwind (PDone (XAdd true)))
+      | CBranch _ => (h, PUnwind (UDone (XAdd false)))      (* leaf in place of a branch *)
+      | _ => (set_cont h t0 (CLeaf v), PUnwind (UDone (XAdd true)))
       end
   | PAddIRead t0 k r v =>
       match get_cont h t0 with
@@ -319,12 +327,12 @@ Definition local_step (h : heap) (p : pc) : heap * pc :=
           | Some br => (h, PAddEnter br r v)                (* br.Add(path[1:]) holding RLock t *)
           | None => (h, PAddIRel t0 k r v)
           end
-      | CLeaf _ => (h, PUnwind (PDone (XAdd false)))        (* already a leaf *)
+      | CLeaf _ => (h, PUnwind (UDone (XAdd false)))        (* already a leaf *)
       end
   | PAddSlow t0 k r v =>
       (* slowAdd under the write lock of t0, including the re-check *)
       match get_cont h t0 with
-      | CLeaf _ => (h, PUnwind (PDone (XAdd false)))
+      | CLeaf _ => (h, PUnwind (UDone (XAdd false)))
       | CNil =>
           let br := List.length h in
           (set_cont h t0 (CBranch [(k, br)]) ++ new_chain br r v, PAddEnter br r v)
@@ -339,23 +347,24 @@ Definition local_step (h : heap) (p : pc) : heap * pc :=
       end
   | PGetRead t0 p0 =>
       match p0 with
-      | [] => (h, PUnwind (PHVal t0))                       (* Get returns t; then .Value() *)
+      | [] => (h, PUnwind (UVal t0))                       (* Get returns t; then .Value() *)
       | k :: r =>
           match get_cont h t0 with
           | CBranch cs =>
               match assoc k cs with
               | Some br => (h, PGetEnter br r)
-              | None => (h, PUnwind (PDone (XVal None)))
+              | None => (h, PUnwind (UDone (XVal None)))
               end
-          | _ => (h, PUnwind (PDone (XVal None)))
+          | _ => (h, PUnwind (UDone (XVal None)))
           end
       end
-  | PUnwind k => (h, k)
+  | PUnwind (UDone r) => (h, PDone r)
+  | PUnwind (UVal n) => (h, PHVal n)
   | PHValRead n =>
-      (h, PUnwind (PDone (XVal (match get_cont h n with CLeaf v => Some v | _ => None end))))
-  | PHUpdWrite n v => (set_cont h n (CLeaf v), PUnwind (PDone XUnit))
+      (h, PHRel (XVal (match get_cont h n with CLeaf v => Some v | _ => None end)))
+  | PHUpdWrite n v => (set_cont h n (CLeaf v), PHRel XUnit)
   | PDelCrit q =>
-      let r := hdelete h q in (fst r, PUnwind (PDone (XPaths (snd r))))
+      let r := hdelete h q in (fst r, PUnwind (UDone (XPaths (snd r))))
   | PQRead t0 pre q acc fr =>
       let c := get_cont h t0 in
       match query_visits c q with
@@ -374,19 +383,19 @@ Definition is_done (p : pc) : bool := match p with PDone _ => true | _ => false 
 Definition tstep_gen (strict : bool) (h : heap) (t : thread) : option (heap * thread) :=
   if is_done (tpc t) then None else
   match lockop_of t with
-  | LNone => let r := local_step h (tpc t) in Some (fst r, TH (snd r) (held t))
+  | LNone => let r := local_step h (tpc t) in Some (fst r, TH (top t) (snd r) (held t))
   | LRLock n =>
       if can_rlock strict h n
-      then Some (do_rlock h n, TH (after_lock (tpc t)) ((n, MR) :: held t))
+      then Some (do_rlock h n, TH (top t) (after_lock (tpc t)) ((n, MR) :: held t))
       else None
-  | LReq n => Some (do_req h n, TH (after_lock (tpc t)) (held t))
+  | LReq n => Some (do_req h n, TH (top t) (after_lock (tpc t)) (held t))
   | LAcq n =>
       if can_lock h n
-      then Some (do_acq h n, TH (after_lock (tpc t)) ((n, MW) :: held t))
+      then Some (do_acq h n, TH (top t) (after_lock (tpc t)) ((n, MW) :: held t))
       else None
   | LRel =>
       match held t with
-      | (n, m) :: hs => Some (do_rel h n m, TH (after_lock (tpc t)) hs)
+      | (n, m) :: hs => Some (do_rel h n m, TH (top t) (after_lock (tpc t)) hs)
       | [] => None
       end
   end.
@@ -419,13 +428,25 @@ Definition enabled_strict (s : state) (i : nat) : bool :=
 Definition empty_root : hnode := HN CNil 0 false 0.
 
 Definition init_state (ops : list cop) : state :=
-  ST [empty_root] (map (fun o => TH (PStart o) []) ops).
+  ST [empty_root] (map (fun o => TH o (PStart o) []) ops).
 
 (** run a schedule (a list of thread ids); a choice that is not enabled is skipped *)
 Fixpoint run_sched (s : state) (sch : list nat) : state :=
   match sch with
   | [] => s
   | i :: sch' => match step s i with Some s' => run_sched s' sch' | None => run_sched s sch' end
+  end.
+
+(** the node a fully specified path leads to from node [n] (no locking: a
+    specification device, not a program) *)
+Fixpoint resolve (h : heap) (n : nat) (p : path) : option nat :=
+  match p with
+  | [] => Some n
+  | k :: r =>
+      match get_cont h n with
+      | CBranch cs => match assoc k cs with Some c => resolve h c r | None => None end
+      | _ => None
+      end
   end.
 
 (** ** abstraction: the sequential tree a heap represents *)
@@ -496,6 +517,6 @@ Definition race_between (h : heap) (a b : thread) : bool :=
 
 Definition is_handle_pc (p : pc) : bool :=
   match p with
-  | PHVal _ | PHValRead _ | PHUpd _ _ | PHUpdAcq _ _ | PHUpdWrite _ _ => true
+  | PHVal _ | PHValRead _ | PHUpd _ _ | PHUpdAcq _ _ | PHUpdWrite _ _ | PHRel _ => true
   | _ => false
   end.
